@@ -99,7 +99,10 @@ def _build_http_response(smtp_reply):
     headers = []
     info = {'message': smtp_reply.message}
     if smtp_reply.command:
-        info['command'] = smtp_reply.command
+        command = smtp_reply.command
+        if isinstance(command, bytes):  # e.g. replies of an SMTP relay
+            command = command.decode('ascii', 'replace')
+        info['command'] = command
     Headers(headers).add_header('X-Smtp-Reply', code, **info)
     if code.startswith('2'):
         return WsgiResponse('204 No Content', headers)
